@@ -22,7 +22,9 @@ BenignStdMods == {"collections", "datetime", "fractions", "decimal", "copyreg", 
                   "marshal", "_io", "importlib", "gzip"}
 NonStdMods    == {"verif_sink", "verif_nat", "numpy", "M1", "M2", "sklearn.tree", "not_a_real_module",
                   "copy_reg", "pkg.sub", "torch", "torch.storage", "torch.serialization", "torch.jit", "operator.impl",
-                  "numpy.testing._private.utils", "numpy.testing._private.utils.x", "numpy.core.multiarray"}
+                  "numpy.testing._private.utils", "numpy.testing._private.utils.x", "numpy.core.multiarray",
+                  \* python-2 names (not modules of the running standard library; the unpickler renames some of them)
+                  "commands", "UserDict", "cPickle", "urllib2", "Queue"}
 ModCat(m) == IF m \in BuiltinMods THEN "builtins"
              ELSE IF m \in DangerousMods THEN "dangerous"
              ELSE IF m \in BenignStdMods THEN "benign_std"
